@@ -73,7 +73,7 @@ pub fn f_anti_join<'a>(a: S<'a, KV>) {
 
 pub fn f_fold<'a>(a: S<'a, u32>) {
     let tick = a.location().tick();
-    a.fold(q!(|| 0u32), q!(|acc, x| *acc = *acc * 2 + x))
+    a.fold(q!(|| 0u32), q!(|acc, x| *acc = (*acc * 2 + x) % 1009))
         .snapshot(&tick, nondet!(/** observation only */))
         .all_ticks()
         .embedded_output("out");
@@ -128,7 +128,7 @@ pub fn f_last<'a>(a: S<'a, u32>) {
 
 pub fn f_reduce<'a>(a: S<'a, u32>) {
     let tick = a.location().tick();
-    a.reduce(q!(|acc, x| *acc = *acc * 3 + x))
+    a.reduce(q!(|acc, x| *acc = (*acc * 3 + x) % 1009))
         .snapshot(&tick, nondet!(/** observation only */))
         .all_ticks()
         .embedded_output("out");
@@ -137,7 +137,7 @@ pub fn f_reduce<'a>(a: S<'a, u32>) {
 pub fn f_fold_keyed<'a>(a: S<'a, KV>) {
     let tick = a.location().tick();
     a.into_keyed()
-        .fold(q!(|| 1u32), q!(|acc, v| *acc = *acc * 2 + v))
+        .fold(q!(|| 1u32), q!(|acc, v| *acc = (*acc * 2 + v) % 1009))
         .snapshot(&tick, nondet!(/** observation only */))
         .entries()
         .all_ticks()
@@ -148,7 +148,7 @@ pub fn f_fold_keyed<'a>(a: S<'a, KV>) {
 pub fn f_reduce_keyed<'a>(a: S<'a, KV>) {
     let tick = a.location().tick();
     a.into_keyed()
-        .reduce(q!(|acc, v| *acc = *acc * 3 + v))
+        .reduce(q!(|acc, v| *acc = (*acc * 3 + v) % 1009))
         .snapshot(&tick, nondet!(/** observation only */))
         .entries()
         .all_ticks()
